@@ -440,6 +440,12 @@ pub proof fn lemma_blob(l: Layout)
              "base_ty.spec_layout(old(self).ctx).is_none() ==> *final(self) == *old(self)",
              "base_ty.spec_layout(old(self).ctx).is_some() ==> final(self).latest_field_layout == base_ty.spec_layout(old(self).ctx)",
              "final(self).max_field_align >= old(self).max_field_align",
+             # a base subobject is a repr(C) field: rustc places it at the next multiple of its alignment after the previous
+             # base, and the running offset - from which every later padding (in front of a bit-field unit too: C03) is
+             # computed - must then be its end
+             "base_ty.spec_layout(old(self).ctx).is_some() && !old(self).is_packed && base_ty.spec_layout(old(self).ctx).unwrap().align > 0 && !old(self).last_field_was_bitfield ==> "
+             "final(self).latest_offset as int == align_up(if old(self).latest_field_layout.is_some() { align_up(old(self).latest_offset as int, layout_align1(old(self).latest_field_layout.unwrap())) } else { old(self).latest_offset as int }, "
+             "base_ty.spec_layout(old(self).ctx).unwrap().align as int) + base_ty.spec_layout(old(self).ctx).unwrap().size",
          ]},
         # added by the F5 repair (/repo commit c363bfdc): padding up to the C offset of a bit-field unit
         {"kind": "fn", "file": SL, "name": "pad_to_bitfield_unit", **TR, "ret": "r",
